@@ -111,7 +111,7 @@ func checkFut(keyBase string, ft fut) (res futResult) {
 			kind = "function returned by the chunk"
 		}
 		res.viols = append(res.viols, &core.Violation{
-			Key: fmt.Sprintf("%s fn=%s clause=%s", keyBase, ft.label, clause),
+			Key:    fmt.Sprintf("%s fn=%s clause=%s", keyBase, ft.label, clause),
 			Detail: fmt.Sprintf("%s\nfunction under test: %s of\n%s", fmt.Sprintf(format, a...), kind, numbered(ft.src)),
 		})
 	}
